@@ -4,9 +4,9 @@ import (
 	"encoding/json"
 	"fmt"
 	"strings"
-	"unicode/utf8"
 	"sync"
 	"sync/atomic"
+	"unicode/utf8"
 
 	"verif/harness"
 	"verif/impl"
